@@ -86,15 +86,18 @@ def Buf.wrap (b : Buf) : Buf :=
     if b.start == b.window.length then { b with start := 0 } else b
   else b
 
-/-- `windowTimeBuffer.insert`, with the wrap-around step as a parameter (old / current). -/
-def Buf.insertCore (wrapF : Buf → Buf) (nil : Pt) (b : Buf) (p : Pt) : Buf :=
-  let b := if b.size == b.cap then b.growWith nil else b
+/-- The rest of `insert` after the growth step: wrap-around check, then store the point. -/
+def Buf.put (wrapF : Buf → Buf) (b : Buf) (p : Pt) : Buf :=
   -- Check if we need to wrap around
   let b := wrapF b
   -- Insert point
   let b := if b.stop == b.window.length then { b with window := b.window ++ [p] }
            else { b with window := b.window.set b.stop p }
   { b with size := b.size + 1, stop := b.stop + 1 }
+
+/-- `windowTimeBuffer.insert`, with the wrap-around step as a parameter (old / current). -/
+def Buf.insertCore (wrapF : Buf → Buf) (nil : Pt) (b : Buf) (p : Pt) : Buf :=
+  Buf.put wrapF (if b.size == b.cap then b.growWith nil else b) p
 
 def Buf.insertWith (nil : Pt) (b : Buf) (p : Pt) : Buf := Buf.insertCore Buf.wrap nil b p
 def Buf.insert (b : Buf) (p : Pt) : Buf := b.insertWith nilPt p
